@@ -73,6 +73,8 @@ class FacetBasis(AbstractBasis):
             disable_doflocs,
         )
 
+        self.side = side
+
         # by default use boundary facets
         if facets is None:
             self.find = np.nonzero(self.mesh.f2t[1] == -1)[0].astype(np.int32)
@@ -206,6 +208,7 @@ class FacetBasis(AbstractBasis):
             mapping=self.mapping,
             quadrature=self.quadrature,
             facets=self.find,
+            side=self.side,
         )
 
     def project(self, interp, facets=None, dtype=None):
